@@ -69,6 +69,8 @@ def is_mapper_expr(repo, fi, expr):
                 r = repo.resolve_expr(fi, val.func)
                 if r.kind == "external" and r.fq.endswith("get_mapper"):
                     return True
+    if isinstance(expr, ast.Attribute) and isinstance(expr.value, ast.Name) and expr.value.id == "self" and (expr.attr == "mapper" or expr.attr.endswith("mapper")):
+        return True  # the mapper kept on an object of the package
     if isinstance(expr, ast.Call):
         r = repo.resolve_expr(fi, expr.func)
         if r.kind == "external" and r.fq.endswith("get_mapper"):
@@ -98,6 +100,8 @@ def scan(repo, fi):
                     continue
                 if base.kind == "module":
                     continue
+                if r.kind == "func":
+                    continue  # a method of the package (on self or on a provable instance): the call graph follows it
                 m = f.attr
                 if m == "open":
                     mode = _mode_of(n)
